@@ -28,6 +28,15 @@ DocTryInto(vs, a, T) == IF ~vs[a].ign /\ LiveTys(vs[a]) = T THEN <<"ok", LiveIdx
 \* shared / mutable accessor forms are generated; without the attribute only the owned form is.
 FormSets == (SUBSET {"owned", "ref", "ref_mut"}) \ {{}}
 DocForms(fa) == IF fa = {} THEN {"owned"} ELSE fa          \* {} stands for "no attribute"
+\* Unwrap / TryUnwrap (unwrap.md, try_unwrap.md): "If you want to treat a reference, you can put the #[unwrap(ref)] attribute on
+\* the enum declaration OR THAT VARIANT, then unwrap_foo_ref will be generated" - next to unwrap_foo, as the documented example
+\* shows (`#[unwrap(ref)]`: unwrap_just and unwrap_just_ref). So the reference forms ADD to the owned accessor, which every
+\* non-ignored variant has; on a variant they concern that variant alone.
+\* place: "enum" (on the enum declaration) or "variant1" (on the first non-ignored variant only).
+DocFormsU(fa) == fa \cup {"owned"}
+FirstLive(vs) == CHOOSE i \in Live(vs) : \A j \in Live(vs) : i <= j
+DocFormsAt(fa, place, vs, x) == IF place = "enum" \/ fa = {} THEN DocFormsU(fa)
+                                ELSE IF x = FirstLive(vs) THEN DocFormsU(fa) ELSE {"owned"}
 
 (***************************************************************************)
 (* Extension beyond C11 (spec growth): the TEXTS of the failure paths.     *)
